@@ -39,7 +39,11 @@ pub fn make_world<S: Scheme>(cfg: &Cfg, rng: &mut ChaCha20Rng) -> Result<World<S
     if let Some(w) = S::custom_world(cfg, rng) {
         return Ok(w);
     }
-    let pp = attempt(|| PcOf::<S>::setup(cfg.max_degree, cfg.num_vars, rng)).map_err(|o| ("setup".to_string(), o))?;
+    let mut pp = attempt(|| PcOf::<S>::setup(cfg.max_degree, cfg.num_vars, rng)).map_err(|o| ("setup".to_string(), o))?;
+    // every fifth world is trimmed from universal parameters that were stored and loaded again
+    if rng.next_u32() % 5 == 0 {
+        pp = reserialize(&pp, rng.next_u32()).map_err(|e| ("deserialize-universal-params".to_string(), Out::Err(e)))?;
+    }
     let (ck, vk) = attempt(|| {
         PcOf::<S>::trim(&pp, cfg.supported_degree, cfg.supported_hiding, cfg.enforced.as_deref())
     })
